@@ -1,7 +1,7 @@
 (* C16 — Cert exchange serves exact store slices; pollers store only verified certs.
    server_limit / server_guard / server_end are GENERATED from certexchange/server.go. *)
 From Coq Require Import ZArith List Bool.
-From F3 Require Import GoInt ListX ServerGen Exchange ExchangeProofs PollLocal.
+From F3 Require Import GoInt ListX ServerGen Exchange ExchangeProofs PollLocal PollLocalBridge.
 Import ListNotations.
 Open Scope Z_scope.
 
@@ -87,3 +87,12 @@ Example c16_poll_local_example :
   let s := PollLocal.lrun (mkLS 3 2 0 0 false) [PCert 3 true; PLocal; PCert 4 true; PCert 5 false; PCert 6 true] in
   (ls_next s, ls_latest s, ls_received s, ls_new s, ls_illegal s) = (5, 4, 2, 1, true).
 Proof. vm_compute. reflexivity. Qed.
+
+(* Without local events the loop with local progress IS the consume loop of the multi-request poller model (the one the
+   scripted-responder correspondence runs through): same cursor, same received count, same verdict. *)
+Theorem c16_poll_local_refines_consume : forall cs next st rc latest nw,
+  let '(s', rc', ill) := consume dcert unit dvalidate {| p_next := next; p_tbl := tt; p_store := st |} cs rc in
+  let l := PollLocal.lrun (mkLS next latest (Z.of_nat rc) nw false) (map as_item cs) in
+  ls_next l = p_next _ _ s' /\ ls_received l = Z.of_nat rc' /\ ls_illegal l = ill.
+Proof. exact consume_is_lrun. Qed.
+Print Assumptions c16_poll_local_refines_consume.
